@@ -352,7 +352,9 @@ var attrAtoms = []string{"line one\r\nline two", "a\rb", "x\ny", "t\tu", "\r\n"}
 
 var textAtoms = []string{"a", "b c", "x", "1 < 2", "&", "<", ">", `"`, "'", ";", "&amp;", "&lt;", "&#38;", "&nbsp;", "&amp;amp;", " ", "é", "a & b;", "x;y", "&lt;b&gt;", "</p>", "&#", "& ", "&x;", "tom&jerry", "-->", "<!--", "1 &lt; 2 &amp; 3;",
 	// closing braces are ordinary text, also in front of a mustache of the same run / value
-	"}}", "} }}", `{"a": {"b": 1}}`, "}"}
+	"}}", "} }}", `{"a": {"b": 1}}`, "}",
+	// text beyond ASCII
+	"日本語", "😀", "İstanbul", "Straße", "\u00a0", "a\u00a0b", "\u2028", "\u3000", "e\u0301", "\u200f", "＜b＞", "naïve & café", "Ω<", "\U0001F468\u200d\U0001F469\u200d\U0001F467"}
 
 type gctx struct {
 	t      *rapid.T
